@@ -102,6 +102,9 @@ def returned_strings(fn):
     from .pysym import SymExec, path_values, show
     out = []
     for conds, v in path_values(SymExec(fn, unroll=1).run()):
+        if v[0] == 'sub' and v[1][0] in ('tuple', 'list') and v[1][1] and all(x[0] == 'const' for x in v[1][1]):
+            out.extend((x[1], fn) for x in v[1][1])       # a literal table indexed by a computed value: any of its entries
+            continue
         if v[0] != 'const':
             raise AnalysisError('non-constant return in %s: %s' % (fn.name, show(v)[:80]))
         out.append((v[1], fn))
